@@ -13,8 +13,9 @@ CONSTANTS Keys = {"k0", "k1"}
           MaxSeq = 1
           MaxOps = 2
           MaxRounds = 2
+          TrackW0 = FALSE
           UseRun = FALSE
           Timely = FALSE
-          Devs = {"TTLReset"}
+          Devs = {"Dev_X03_TTLReset"}
 CHECK_DEADLOCK FALSE
 PROPERTIES RepubOnlyRefreshes
